@@ -27,6 +27,11 @@ def gen_ovni(sc):
     for m in re.finditer(r"atomic_(load|store|compare_exchange_strong)\(\s*([^,)]+)", src):
         if m.group(2).strip() != "&rproc.st":
             raise RuntimeError("atomic access on something else than &rproc.st: %s" % m.group(0))
+    # function-scope objects with static storage duration: every thread shares them.  A call is planted right
+    # after each such declaration; reaching it from a per-thread API function is a violation (tm.c).
+    def plant(m):
+        return m.group(0) + ' v_static_used("%s");' % m.group(0).strip().replace('"', "'")
+    src = re.sub(r"^[ \t]+static[ \t]+(?!const\b)[^;(){}]*;", plant, src, flags=re.M)
     if re.search(r"_Thread_local struct ovni_rthread rthread", src) is None:
         raise RuntimeError("rthread is no longer _Thread_local: the isolation argument of C11 does not apply")
     # other file-scope mutable objects would be shared between threads
@@ -46,8 +51,9 @@ def shared_statics():
                     r"^(static\s+)?(struct\s+\w+|char|int|long|size_t|uint\w+|FILE|JSON_\w+)\s*\*?\s*\w+(\[[^\]]*\])?\s*(=|;)", ln):
                 if "rproc" not in ln and "rthread" not in ln:
                     out.append("%s: %s" % (f, ln.strip()))
-            # function-scope statics (mutable: `static const` tables are fine)
-            if depth > 0 and re.match(r"^\s+static\s+(?!const\b)", ln) and "(" not in ln.split("=")[0]:
+            # function-scope statics (mutable: `static const` tables are fine); those of ovni.c itself are
+            # handled by the planted v_static_used() solver obligation (gen_ovni), not by this guard
+            if depth > 0 and not file_scope and re.match(r"^\s+static\s+(?!const\b)", ln) and "(" not in ln.split("=")[0]:
                 out.append("%s: %s" % (f, ln.strip()))
             depth += ln.count("{") - ln.count("}")
     return out
@@ -59,9 +65,9 @@ def obligations(tier, sc):
     if sh:
         raise RuntimeError("objects with static storage duration in the runtime would be shared between threads; C11's frame argument must be revisited: %r" % sh)
     obs = []
-    for api, name in APIS.items():
+    for api, name, tmp in [(a, n, 0) for a, n in APIS.items()] + [(8, "thread_free_tmpdir", 1), (1, "proc_fini_tmpdir", 1)]:
         obs.append(Obligation(
-            name="tm_%s" % name, harness="C11/tm.c", defines=["API=%d" % api, "GFS_MODE=0", "GFS_TMPDIR=0", "GFS_BENIGN_SHORT=0"],
+            name="tm_%s" % name, harness="C11/tm.c", defines=["API=%d" % api, "GFS_MODE=0", "GFS_TMPDIR=%d" % tmp, "GFS_BENIGN_SHORT=0"] + (["GFS_JSON_FIRST=1", "GFS_DRAIN_POLICY=0"] if tmp else []),
             unwind=70, unwindset=["ovni_ev_add:3", "add_flush_events:3", "write_evbuf.0:5", "env_interfere.0:4", "snapshot.0:500", "unchanged.0:500", "move_thread_to_final.0:5",
                                   "move_thdir_to_final.0:4", "move_thdir_to_final.1:5", "v_readdir.0:4"],
             native_srcs=["src/parson.c"], native_cflags=["-Wl,--allow-multiple-definition"],
